@@ -11,7 +11,7 @@ from common import Ctx, InfraError
 
 MODULES = {f"C{i:02d}": [f"TjdProps.C{i:02d}"] for i in range(1, 21)}
 MODULES["C01"].append("TjdProps.C01Example")
-MODULES["C03"] += ["TjdProps.C03Example", "TjdProps.C03b"]
+MODULES["C03"] += ["TjdProps.C03Example", "TjdProps.C03b", "TjdProps.C03c"]
 MODULES["C04"].append("TjdProps.C03b")
 MODULES["C15"].append("TjdProps.C15b")
 MODULES["C10"].append("TjdProps.C10b")
@@ -29,6 +29,25 @@ def main() -> int:
     if pid not in MODULES:
         print(f"unknown property {pid}", file=sys.stderr)
         return 2
+    cov = None
+    if os.environ.get("VERIF_COVERAGE") == "1":
+        # development aid: which lines / branches of /repo/src/torchjd do the correspondence runs execute?
+        # (tools/coverage_report.py combines the per-check data files; never set by MANIFEST commands)
+        import coverage
+        from common import VERIF
+        (VERIF / "out" / "cov").mkdir(parents=True, exist_ok=True)
+        cov = coverage.Coverage(data_file=str(VERIF / "out" / "cov" / f".coverage.{pid}.{args.tier}"), branch=True,
+                                include=["*/src/torchjd/*"])
+        cov.start()
+    try:
+        return _main(args, pid, seed)
+    finally:
+        if cov is not None:
+            cov.stop()
+            cov.save()
+
+
+def _main(args, pid, seed) -> int:
     try:
         mod = importlib.import_module(f"prop_{pid}")
         if args.replay:
